@@ -182,6 +182,7 @@ pub fn run_client(
     probes: Vec<u64>,
     horizon: u64,
     rng: u64,
+    via_host_port: Option<sip_types::host::HostPort>,
 ) -> Observed {
     run_world(rng, |clock| async move {
         let log = WireLog::new(clock);
@@ -189,7 +190,7 @@ pub fn run_client(
         let endpoint = offline_builder().build();
         let peer: SocketAddr = "192.0.2.1:5060".parse().unwrap();
         let mut target = TargetTransportInfo {
-            via_host_port: None,
+            via_host_port,
             transport: Some((tp.clone(), peer)),
         };
         let results: Arc<Mutex<Vec<(u64, Res)>>> = Default::default();
@@ -445,6 +446,7 @@ pub fn check(case: &Case, out: &mut CaseOut) {
         probes.clone(),
         horizon,
         case.rng as u64,
+        None,
     );
 
     // ---- classes / non-triviality ----
